@@ -18,28 +18,84 @@ AGGS = ["total", "min", "max", "mean"]
 def model_class():
     from BPTK_Py import Model, Agent
 
+    class ActAgent(Agent):
+        """wave 3: the population also changes DURING a step — an agent deletes itself / another agent or creates one while it acts"""
+        def act(self, time, round_no, step_no):
+            for op in getattr(self.model, "_mid", {}).get(int(time), ()):
+                if op[0] == "act_del" and op[1] == self.id:
+                    self.model.delete_agent(op[2])
+                elif op[0] == "act_dels" and op[1] == self.id:
+                    self.model.delete_agents(list(op[2]))
+                elif op[0] == "act_create" and op[1] == self.id:
+                    self.model.create_agent(TYPES[op[2]], props_dict(op[3]))
+
     class M(Model):
         def instantiate_model(self):
             for t in TYPES:
-                self.register_agent_factory(t, (lambda tt: (lambda i, mod, p: Agent(i, mod, p, tt)))(t))
+                self.register_agent_factory(t, (lambda tt: (lambda i, mod, p: ActAgent(i, mod, p, tt)))(t))
+
+        # ---- wave 3: the population at the start of the step and every effective operation on it, in execution order
+        def _snap_agent(self, a):
+            return (TYPES.index(a.agent_type), STATES.index(a.state), [(n, v["type"], v["value"]) for n, v in a.properties.items()])
+
+        def _oplog(self, op):
+            now = getattr(self, "_now", None)
+            if now is not None:
+                self._ops[now].append(op)
+
+        def create_agent(self, agent_type, agent_properties):
+            a = super().create_agent(agent_type, agent_properties)
+            self._oplog(("C", a.id) + self._snap_agent(a))
+            return a
+
+        def delete_agents(self, agent_ids):
+            self._oplog(("D", [int(i) for i in agent_ids]))
+            return super().delete_agents(agent_ids)
+
+        def configure_agents(self, config):
+            self._oplog(("X",))
+            return super().configure_agents(config)
+
+        def reset(self):
+            self._oplog(("X",))
+            return super().reset()
 
         def begin_round(self, time, sim_round, step):
+            if not hasattr(self, "_ops"):
+                self._ops, self._start = {}, {}
+            self._start[time] = [(a.id,) + self._snap_agent(a) for a in self.agents]
+            self._ops[time] = []
+            self._now = time
             for op in self._script.get(int(time), ()):   # batch run: time = round (dt = 1); session step: round is 0, time = step
                 if op[0] == "state":
                     a = self.agent(op[1])
                     if a is not None:
                         a.state = STATES[op[2]]
+                        self._oplog(("S", a.id, op[2]))
                 elif op[0] == "value":
                     a = self.agent(op[1])
                     if a is not None and op[2] in a.properties:
                         a.set_property_value(op[2], op[3])
+                        self._oplog(("V", a.id, op[2], a.properties[op[2]]["value"]))   # the value the agent holds afterwards
                 elif op[0] == "delete":
                     self.delete_agent(op[1])
                 elif op[0] == "create":
                     self.create_agent(TYPES[op[1]], props_dict(op[2]))
 
         def end_round(self, time, sim_round, step):
-            # the population the collector is about to see (nothing runs in between)
+            for op in getattr(self, "_mid", {}).get(int(time), ()):
+                if op[0] == "end_del":
+                    self.delete_agents(list(op[1]))
+                elif op[0] == "end_create":
+                    self.create_agent(TYPES[op[1]], props_dict(op[2]))
+                elif op[0] == "end_reconf":        # configure_agents: removes everybody, then creates the listed agents
+                    self.configure_agents([{"name": TYPES[ty], "count": 1, "properties": props_dict(vals)} for ty, vals in op[1]])
+                elif op[0] == "end_reset":         # Model.reset(): removes everybody and wipes the statistics recorded so far
+                    self.reset()
+                    self._wipe_before = time
+            self._now = None
+            # the agents live at the END of the step = "at that time": what the statistics of this time must describe
+            # (nothing runs between here and collect_agent_statistics)
             self._snaps[time] = [(TYPES.index(a.agent_type), STATES.index(a.state),
                                   [(n, v["type"], v["value"]) for n, v in a.properties.items()]) for a in self.agents]
     return M
@@ -54,6 +110,7 @@ def new_model(case):
     from BPTK_Py import SimultaneousScheduler, DataCollector
     m = model_class()(name="c13", scheduler=SimultaneousScheduler(), data_collector=DataCollector())
     m._script = {int(k): v for k, v in case["script"].items()}
+    m._mid = {int(k): v for k, v in case.get("mid", {}).items()}
     m._snaps = {}
     m.instantiate_model()
     m.run_specs(1, case["stop"], 1)
@@ -63,11 +120,33 @@ def new_model(case):
 
 
 # ------------------------------------------------------------------ canonical forms
-def enc_pop(snap):
+def enc_agent(ty, st, es):
     def ent(n, t, v):
         num = t in ("Integer", "Double")
         return f"{PROPS.index(n)}={'N' if num else 'S'}{fbits(v if num else 0.0)}"
-    return ";".join(f"{ty}:{st}:" + (",".join(ent(*e) for e in es) or "-") for ty, st, es in snap) or "-"
+    return f"{ty}:{st}:" + (",".join(ent(*e) for e in es) or "-")
+
+
+def enc_pop(snap):
+    return ";".join(enc_agent(ty, st, es) for ty, st, es in snap) or "-"
+
+
+def enc_ipop(start):
+    return ";".join(f"{i}@{enc_agent(ty, st, es)}" for i, ty, st, es in start) or "-"
+
+
+def enc_ops(ops):
+    def one(op):
+        if op[0] == "D":
+            return "D" + ".".join(map(str, op[1]))
+        if op[0] == "C":
+            return f"C{op[1]}@{enc_agent(op[2], op[3], op[4])}"
+        if op[0] == "S":
+            return f"S{op[1]}.{op[2]}"
+        if op[0] == "V":
+            return f"V{op[1]}.{PROPS.index(op[2])}.{fbits(op[3])}"
+        return "X"
+    return "|".join(one(op) for op in ops) or "-"
 
 
 def canon_stats_real(st):
@@ -116,9 +195,11 @@ def ref_cell(snap, ty, st, p=None, agg=None):
 def check_statistics(m):
     """Model.statistics() against the statement; returns None or text."""
     stats = m.statistics()
-    if set(stats.keys()) != set(m._snaps.keys()):
-        return f"statistics recorded at {sorted(stats)} but collected at {sorted(m._snaps)}"
-    for t, snap in m._snaps.items():
+    wipe = getattr(m, "_wipe_before", None)       # Model.reset() in end_round of that time wipes what was recorded before
+    snaps = {t: sn for t, sn in m._snaps.items() if wipe is None or t >= wipe}
+    if set(stats.keys()) != set(snaps.keys()):
+        return f"statistics recorded at {sorted(stats)} but collected at {sorted(snaps)}"
+    for t, snap in snaps.items():
         seen = set()
         for ty_name, states in stats[t].items():
             for st_name, g in states.items():
@@ -310,6 +391,46 @@ def gen_case(rng, homogeneous=True, small=False):
     return {"stop": stop, "pop": pop, "script": script, "tprops": {str(k): v for k, v in tprops.items()}, "homogeneous": homogeneous}
 
 
+def gen_mid_case(rng, small=False, allow_reset=True):
+    """wave 3: the population changes DURING the steps: agents delete themselves / the first, a middle, the last / a later agent or
+    create an agent while acting; end_round deletes, creates, reconfigures (configure_agents) or resets the model. The statistics of a
+    time must describe the agents live at the end of that step."""
+    case = gen_case(rng, homogeneous=True, small=small)
+    while len(case["pop"]) < 2:
+        ty = rng.below(2)
+        case["pop"].append((ty, [(p, gen_value(rng, p)) for p in case["tprops"][str(ty)]]))
+    vals = lambda ty: [(p, gen_value(rng, p)) for p in case["tprops"][str(ty)]]
+    nxt = len(case["pop"]) + sum(1 for ops in case["script"].values() for o in ops if o[0] == "create")
+    mid = {}
+    for t in range(1, case["stop"] + 1):
+        if not rng.chance(3, 4):
+            continue
+        ops = []
+        for _ in range(rng.range(1, 3)):
+            r = rng.below(12 if allow_reset else 11)
+            actor = rng.below(nxt)
+            if r < 2:
+                ops.append(["act_del", actor, actor])                                   # deletes itself
+            elif r < 5:
+                ops.append(["act_del", actor, rng.choice([0, nxt // 2, nxt - 1, rng.below(nxt)])])
+            elif r < 6:
+                ops.append(["act_dels", actor, sorted({rng.below(nxt) for _ in range(rng.range(0, 3))})])
+            elif r < 7:
+                ty = rng.below(2); ops.append(["act_create", actor, ty, vals(ty)]); nxt += 1
+            elif r < 9:
+                ops.append(["end_del", sorted({rng.below(nxt) for _ in range(rng.range(1, 3))})])
+            elif r < 10:
+                ty = rng.below(2); ops.append(["end_create", ty, vals(ty)]); nxt += 1
+            elif r < 11:
+                new = [(ty, vals(ty)) for ty in (rng.below(2) for _ in range(rng.range(0, 3)))]
+                ops.append(["end_reconf", new]); nxt += len(new)
+            else:
+                ops.append(["end_reset"])
+        mid[str(t)] = ops
+    case["mid"] = mid
+    return case
+
+
 EDGE_KINDS = ["zero_first", "zero_mid", "equal", "one_per_state", "mixed_types"]
 
 
@@ -385,6 +506,7 @@ class Bptk:
         nm = f"smC13x{self.n}"
         m = model_class()(name="c13")
         m._script = {int(k): v for k, v in case["script"].items()}
+        m._mid = {int(k): v for k, v in case.get("mid", {}).items()}
         m._snaps = {}
         # the initial population is created by begin of time: configure() wipes agents, so put it into the scenario
         agents = [{"name": TYPES[ty], "count": 1, "properties": props_dict(vals)} for ty, vals in case["pop"]]
@@ -586,7 +708,11 @@ def shrink_stat_case(case):
             for i in range(len(ops)):
                 sc = dict(case["script"]); sc[t] = ops[:i] + ops[i + 1:]
                 cands.append(dict(case, script=sc))
-        if not any(case["script"].values()):
+        for t, ops in case.get("mid", {}).items():
+            for i in range(len(ops)):
+                md = dict(case["mid"]); md[t] = ops[:i] + ops[i + 1:]
+                cands.append(dict(case, mid=md))
+        if not any(case["script"].values()) and not any(case.get("mid", {}).values()):
             for i in range(len(case["pop"])):
                 cands.append(dict(case, pop=case["pop"][:i] + case["pop"][i + 1:]))
         for c in cands:
@@ -629,10 +755,11 @@ def run(chk):
     # ---- (A) Model.statistics() on generated populations and histories
     cases = [gen_case(rng, homogeneous=rng.chance(3, 4)) for _ in range(150 if chk.quick else 3000)]
     cases += [gen_edge_case(rng, kind) for kind in EDGE_KINDS for _ in range(12 if chk.quick else 200)]
+    cases += [gen_mid_case(rng) for _ in range(80 if chk.quick else 1500)]
     req, real_lines, owner = [], [], []
     first = None
     dist = {"cases": 0, "edge_cases": {k: 0 for k in EDGE_KINDS}, "zero_first_groups": 0, "all_equal_groups": 0, "single_agent_groups": 0,
-            "mixed_type_groups": 0, "times": 0, "agents_seen": 0, "groups_with_4_distinct_numbers": 0, "inhomogeneous_groups": 0, "empty_population_times": 0}
+            "mixed_type_groups": 0, "midstep_cases": 0, "midstep_ops": 0, "step_ops_replayed": 0, "times": 0, "agents_seen": 0, "groups_with_4_distinct_numbers": 0, "inhomogeneous_groups": 0, "empty_population_times": 0}
     order_dep = None
     for ci, case in enumerate(cases):
         m = new_model(case)
@@ -642,11 +769,20 @@ def run(chk):
         if v and first is None:
             first = ("statistics", v, {"case": case})
         nontriv = False
+        wipe = getattr(m, "_wipe_before", None)
         for t in sorted(m._snaps):
+            if wipe is not None and t < wipe:      # recorded before a Model.reset(): wiped, nothing to compare
+                continue
             snap = m._snaps[t]
             req += ["collect " + enc_pop(snap), "stats"]
             real_lines += ["ok", canon_stats_real(stats.get(t, {}))]
             owner += [ci, ci]
+            # wave 3: the model computes the end-of-step population itself from the population at the start of the step and the
+            # operations the callbacks performed (collectStep)
+            req += [f"stepcollect {enc_ipop(m._start[t])} {enc_ops(m._ops[t])}", "stats"]
+            real_lines += ["ok", canon_stats_real(stats.get(t, {}))]
+            owner += [ci, ci]
+            dist["step_ops_replayed"] += len(m._ops[t])
             dist["times"] += 1
             dist["agents_seen"] += len(snap)
             dist["empty_population_times"] += not snap
@@ -669,6 +805,10 @@ def run(chk):
         if case.get("edge"):
             dist["edge_cases"][case["edge"]] += 1
             nontriv = True
+        if case.get("mid"):
+            dist["midstep_cases"] += 1
+            dist["midstep_ops"] += sum(len(v) for v in case["mid"].values())
+            nontriv = True
         chk.case(json.dumps(case, sort_keys=True), nontrivial=nontriv,
                  sample=case if (nontriv and len(json.dumps(case)) < 700) else None)
     # out-of-domain evidence: same agents, two orders, different reported mean
@@ -685,7 +825,8 @@ def run(chk):
     bdist = {"scenarios": 0, "selections": 0, "count_mode": 0, "property_mode": 0, "sessions": 0, "session_steps": 0}
     with Bptk() as bp:
         for bi in range(nb):
-            case = gen_edge_case(rng) if bi % 3 == 2 else gen_case(rng, homogeneous=True, small=True)
+            case = (gen_edge_case(rng) if bi % 3 == 2 else gen_mid_case(rng, small=True, allow_reset=False) if bi % 3 == 1
+                    else gen_case(rng, homogeneous=True, small=True))
             sels = [gen_selection(rng, case) for _ in range(3)]
             bdist["scenarios"] += 1
             bdist["selections"] += len(sels)
